@@ -162,9 +162,25 @@ def norm(x):
     r = _CACHE.get(x.uid)
     if r is not None:
         return r
-    r = _norm(x)
+    r = _expand(_norm(x))
     _CACHE[x.uid] = r
     return r
+
+
+def _expand(p):
+    """Re-expand canonical sub-polynomials that occur with a positive integer power (e.g. hypot(a, b) ** 2)."""
+    if not any(t.op == "nf.poly" and e.denominator == 1 and e > 0 for m in p for t, e in m):
+        return p
+    out = {}
+    for m, c in p.items():
+        term = const(c)
+        for t, e in m:
+            if t.op == "nf.poly" and e.denominator == 1 and 0 < e <= 4:
+                term = mul(term, power(norm(t), e))
+            else:
+                term = mul(term, {((t, e),): Fraction(1)})
+        out = add(out, term)
+    return out
 
 
 def _norm(x: T.Term):
